@@ -369,6 +369,109 @@ def check_trafo_algebra(ctx, db):
     ctx.require('R-ALGEBRA trafo methods', n, 8)
 
 
+def check_builders_algebra(ctx, db):
+    """The polynomial section builders store exactly the documented control points (relative operands are offsets from
+    the current end point), move the end point to the section's last point, and the smooth variants are C1: the
+    gradient of the new section at u = 0 (taken from SubPath::gradient's own arm) is identically the gradient of the
+    previous section at u = 1."""
+    from .. import symdiff as S
+    names = {c['v']: c['n'] for c in db.enum('gdstk::SubPathType')['consts']}
+    gr = db.fn('gdstk::SubPath::gradient')
+    gsw = next(s_ for s_ in gr.walk() if s_.k == 'SwitchStmt' and norm(s_.child('cond').text()).endswith('type'))
+    garms = {}
+    for labels, stmts, top in tables.switch_arms(gsw):
+        for l in labels:
+            garms[names.get(l, l)] = stmts
+    spec = {
+        'segment': ('Segment', ['begin', 'end'], lambda E, b, P, G: {'begin': E, 'end': b(P['end_pt'])}, 'end', None),
+        'cubic': ('Bezier3', ['p0', 'p1', 'p2', 'p3'], lambda E, b, P, G: {'p0': E, 'p1': b(P['point1']), 'p2': b(P['point2']), 'p3': b(P['point3'])}, 'p3', None),
+        'cubic_smooth': ('Bezier3', ['p0', 'p1', 'p2', 'p3'], lambda E, b, P, G: {'p0': E, 'p1': None, 'p2': b(P['point2']), 'p3': b(P['point3'])}, 'p3', 3),
+        'quadratic': ('Bezier2', ['p0', 'p1', 'p2'], lambda E, b, P, G: {'p0': E, 'p1': b(P['point1']), 'p2': b(P['point2'])}, 'p2', None),
+        'quadratic_smooth': ('Bezier2', ['p0', 'p1', 'p2'], lambda E, b, P, G: {'p0': E, 'p1': None, 'p2': b(P['point2'])}, 'p2', 2),
+    }
+    n = 0
+    for name, (kind, fields, expect, last, smooth) in spec.items():
+        f = db.fn('gdstk::RobustPath::' + name)
+        ctx.touch(f)
+        for relative in (True, False):
+            class BA(S.Algebra):
+                def value(self, e, env):
+                    e0 = _strip_casts(e)
+                    if e0 is not None and e0.k == 'CXXMemberCallExpr' and (e0.callee or '').endswith('SubPath::gradient'):
+                        return self.vec(S.atom('G.x'), S.atom('G.y'))
+                    if e0 is not None and e0.k == 'MemberExpr' and e0.n in fields:
+                        b_ = _strip_casts(e0.child('base')) if e0.child('base') is not None else None
+                        while b_ is not None and b_.k == 'MemberExpr' and not b_.n:
+                            b_ = _strip_casts(b_.child('base')) if b_.child('base') is not None else None
+                        if b_ is not None and b_.k == 'DeclRefExpr' and b_.n == 'sub':
+                            return env['sub.' + e0.n]
+                    return S.Algebra.value(self, e, env)
+            alg = BA(db, None)
+            E = alg.vec(S.atom('E.x'), S.atom('E.y'))
+            env = {'end_point': E, 'relative': S.P(1 if relative else 0)}
+            P = {}
+            for p_ in f.params:
+                if 'Vec2' in (p_.get('t') or ''):
+                    P[p_['n']] = alg.vec(S.atom(p_['n'] + '.x'), S.atom(p_['n'] + '.y'))
+                    env[p_['n']] = P[p_['n']]
+
+            def do(stmts):
+                for s_ in stmts:
+                    if s_ is None or s_.k == 'DeclStmt':
+                        continue
+                    if s_.k == 'CompoundStmt':
+                        do(s_.c)
+                    elif s_.k == 'IfStmt':
+                        ct = norm(s_.child('cond').text())
+                        if ct == 'relative':
+                            take = relative
+                        elif ct == '(this->subpath_array.count > 0)':
+                            take = True      # a previous section exists (otherwise there is nothing to be smooth with)
+                        else:
+                            raise S.Unsupported('condition %s' % ct)
+                        br = s_.child('then') if take else s_.child('else')
+                        if br is not None:
+                            do([br])
+                    elif s_.k in ('CXXOperatorCallExpr', 'BinaryOperator', 'CompoundAssignOperator') and getattr(s_, 'op', None) in ('=', '+='):
+                        lhs = s_.args[0] if s_.k == 'CXXOperatorCallExpr' else s_.child('lhs')
+                        rhs = s_.args[1] if s_.k == 'CXXOperatorCallExpr' else s_.child('rhs')
+                        l = _strip_casts(lhs)
+                        if l.k == 'MemberExpr' and l.n in fields:
+                            key = 'sub.' + l.n
+                        elif l.k == 'MemberExpr' and l.n == 'end_point':
+                            key = 'end_point'
+                        else:
+                            raise S.Unsupported('store to %s' % lhs.text()[:30])
+                        v = alg.value(rhs, env)
+                        env[key] = alg.vadd(env[key], v) if s_.op == '+=' else v
+                    elif s_.k in ('CXXMemberCallExpr', 'CallExpr'):
+                        continue
+                    else:
+                        raise S.Unsupported('statement %s' % s_.k)
+            try:
+                do(f.body.c)
+            except (S.Unsupported, KeyError) as e:
+                raise AnalysisBroken('RobustPath::%s is outside the algebra: %s' % (name, e))
+            base = (lambda v: alg.vadd(v, E)) if relative else (lambda v: v)
+            want = expect(E, base, P, None)
+            bad = [k for k, v in want.items() if v is not None and not alg.equal(env.get('sub.' + k, alg.vec(S.P(0), S.P(0))), v)]
+            okend = alg.equal(env['end_point'], env['sub.' + last])
+            n += 1
+            ctx.check(not bad and okend, 'R-ALGEBRA', 'RobustPath::%s/%s' % (name, 'relative' if relative else 'absolute'), f.loc(), 'stores %s with %s and moves the end point to the last of them' % (', '.join(fields), 'operands offset by the current end point' if relative else 'the operands as given'),
+                      'fields %s differ from the documented control points (%s); end point %s' % (bad, {k: alg.render(env.get('sub.' + k)) for k in bad}, alg.render(env['end_point'])))
+            if smooth:
+                genv = {k: env['sub.' + k] for k in fields}
+                genv['u'] = S.P(0)
+                ga = S.Algebra(db, None)
+                ga.funcs, ga.canon = alg.funcs, alg.canon
+                g0 = ga.block(garms[kind], genv, 'grad')
+                n += 1
+                ctx.check(g0 is not None and alg.equal(g0, alg.vec(S.atom('G.x'), S.atom('G.y'))), 'R-ALGEBRA', 'RobustPath::%s/%s/C1' % (name, 'relative' if relative else 'absolute'), f.loc(),
+                          'the gradient of the new section at u = 0 (SubPath::gradient, %s arm) equals the previous section\'s end gradient: first control point = end point + gradient / %d' % (kind, smooth),
+                          'the smooth section starts with gradient %s instead of the previous end gradient (G.x, G.y)' % (alg.render(g0) if g0 is not None else 'unset'))
+    ctx.require('R-ALGEBRA builder identities', n, 14)
+
+
 def run(ctx):
     db = ctx.db
     check_bookkeeping(ctx, db)
@@ -388,6 +491,7 @@ def run(ctx):
     check_exhaust(ctx, db)
     check_gradient(ctx, db)
     check_trafo_algebra(ctx, db)
+    check_builders_algebra(ctx, db)
     f = db.fn('gdstk::RobustPath::commands')
     ctx.touch(f)
     n, table = consume.check_commands(ctx, f)
@@ -396,7 +500,7 @@ def run(ctx):
 
 
 MANIFEST = dict(
-    text='Decides structural necessary conditions of RobustPath consistency on every path: each section append is followed by exactly one fill_widths_and_offsets, which gives every element one width and one offset entry on all four branch combinations; no builder reads the path transform (frame discipline); the four point samplers, the four intersection searches and the four parameter-query prologues are clone families evaluating only their own side, with the sampler step clamped to the section end; look-ahead iterators advance with their loops in to_polygons/element_center/spine and the trailing cursors of the parallel section/offset/width arrays jump together; the OASIS PATH half-width is half and the GDSII WIDTH the full interpolated width; SubPathType/InterpolationType/EndType switches are exhaustive (defaults frozen); RobustPath::commands consumes exactly the operands its guard and advance constants state; SubPath::gradient is, symbolically, the derivative of SubPath::eval for segment, arc, quadratic and cubic sections, under the same linear transform; the path-matrix methods translate, simple_scale, scale, simple_rotate, rotate, x_reflection and transform (both reflection states) update the 2x3 matrix so that, identically, every section point is mapped to the documented image of its previous image. Sampling accuracy, intersection convergence and cap geometry are not decided.',
+    text='Decides structural necessary conditions of RobustPath consistency on every path: each section append is followed by exactly one fill_widths_and_offsets, which gives every element one width and one offset entry on all four branch combinations; no builder reads the path transform (frame discipline); the four point samplers, the four intersection searches and the four parameter-query prologues are clone families evaluating only their own side, with the sampler step clamped to the section end; look-ahead iterators advance with their loops in to_polygons/element_center/spine and the trailing cursors of the parallel section/offset/width arrays jump together; the OASIS PATH half-width is half and the GDSII WIDTH the full interpolated width; SubPathType/InterpolationType/EndType switches are exhaustive (defaults frozen); RobustPath::commands consumes exactly the operands its guard and advance constants state; SubPath::gradient is, symbolically, the derivative of SubPath::eval for segment, arc, quadratic and cubic sections, under the same linear transform; the builders segment/cubic/cubic_smooth/quadratic/quadratic_smooth store exactly the documented control points in relative and absolute mode and the smooth variants are C1 (the new section's gradient at 0, from SubPath::gradient's own arm, equals the previous end gradient); the path-matrix methods translate, simple_scale, scale, simple_rotate, rotate, x_reflection and transform (both reflection states) update the 2x3 matrix so that, identically, every section point is mapped to the documented image of its previous image. Sampling accuracy, intersection convergence and cap geometry are not decided.',
     note='Trusted: clang front end, gx, sa rules. The direct-builder set is discovered (methods appending to subpath_array) and compared with the confirmed list, so a new builder is reported until it is paired and listed.',
     technique='post-dominance pairing over the CFG + who-may-read effect rule + clone families with callee abstraction + look-ahead iterator rule + operand-consumption tables',
     design='§4 C08')
